@@ -9,23 +9,20 @@ assignment forms store the same value; the refutations of the unfixed code (D9 a
 
 NOT proved (PARTIAL): everything between translation and printing — register propagation, dead-code elimination,
 variable splitting and typing, loop/if/switch structuring, the statement writer.  Those are reached only by
-differential execution (harness/props/c21.py).  `C21_full` below is the statement that is not proved.
+differential execution (harness/props/c21.py).  There is NO Lean statement of the whole property ("for every method of
+the subset the emitted Java source compiles and computes, for every argument tuple, what the bytecode computes"): it
+would have to quantify over a model of those passes, and none exists here.  (An earlier placeholder `C21_full` was
+removed: it was trivially provable and therefore said nothing.)
 -/
 import AgVerif.Proof.Translate
 import AgVerif.Model.LitCtx
 import AgVerif.Proof.JExprMain
+import AgVerif.Proof.JExprSem
 
 namespace AgVerif.C21
 open AgVerif.Translate AgVerif.JavaSem
 open AgVerif.Gen.Translate (rows Row ctxRows ctx2Rows)
 open AgVerif.DalvikSem (Form step litOk)
-
-/-- the whole property, for the record: for every method of the subset the emitted Java source compiles and
-    computes, for every argument tuple, what the bytecode computes.  There is no model of the decompiler pipeline
-    here, so the statement is only recorded as the conjunction that WOULD be needed: per-instruction soundness
-    (proved below) and preservation by every pipeline pass (not stated, not proved). -/
-def C21_full : Prop :=
-  (∀ r ∈ rows, rowOk r = true) ∧ ∃ pipeline_preserves_semantics : Prop, pipeline_preserves_semantics
 
 /-- every row of the generated table parses and is the expected rendering of its opcode -/
 theorem rows_checked : rows.all (fun r => rowOk r && decide (r.opcode < 256)) = true := by
@@ -39,7 +36,10 @@ theorem table_complete : ∀ op : Fin 256, opcodeCovered rows op.val = true := b
     constant right or left, long operators and shifts, the six comparisons with an int / char / byte / short typed or
     cast operand and with the constant on the left, bare constants, unary operators, the five casts) a Constant operand
     is printed, for EVERY value of −128 … 255 and the int / long boundaries, with exactly the lexemes of the model's
-    expression `ctxExpr`, as one `int` (resp. `L`-suffixed) decimal literal, and that literal denotes the constant. -/
+    expression `ctxExpr`, as one `int` (resp. `L`-suffixed) decimal literal, and that literal denotes the constant.
+    This is a `decide` over the generated rows `ctxRows` — a finite sample of the Writer's behaviour, not a statement
+    about every constant; the statement for EVERY constant is `constant_printed_denotes` / `print_parse` below, over
+    the model `JExpr.print` of the Writer's constant printing. -/
 theorem literal_contexts_checked : ctxRows.all ctxRowOk = true := by
   decide +kernel
 
@@ -50,7 +50,8 @@ theorem literal_contexts_complete : ctxComplete ctxRows = true := by
 /-- **nested_contexts_checked**: a nest of two operations on constants that came from registers, ((x op1 c1) op2 c2) and
     (c1 op1 (x op2 c2)) for every pair of the operators + − * & | ^ << >> >>> (int) and + − * & (long), is printed as exactly
     that nest — nothing folded, re-associated or dropped — with two literals denoting c1 and c2, for every pair of
-    boundary constants (MAX, MIN, ±2^30, ±1, 0 …, including all the pairs whose sum or product overflows) -/
+    boundary constants (MAX, MIN, ±2^30, ±1, 0 …, including all the pairs whose sum or product overflows).
+    Again a `decide` over the generated rows `ctx2Rows` (100 pairs per shape), not a statement about every pair. -/
 theorem nested_contexts_checked : ctx2Rows.all ctx2RowOk = true := by
   decide +kernel
 
@@ -66,7 +67,10 @@ theorem literal_denotes (ρ : JavaSem.Env) (v : Int) :
 /-- **translate_sound** (partial C21): for every row of the real translation table, for all register contents and
     every literal the encoding can deliver, the Java expression printed for the instruction has, under the JLS
     semantics, exactly the outcome of the instruction under the Dalvik semantics: same value of the same type, same
-    `ArithmeticException`, same branch decision — and it is accepted by the compiler. -/
+    `ArithmeticException`, same branch decision — and it is accepted by the compiler.
+    The register FIELDS of the instruction are fixed to A=1, B=2, C=3 (the instruction the row was reflected on);
+    the contents of those registers are arbitrary.  That the translation functions are uniform in the register
+    numbers is not a theorem (no renaming lemma); other register numbers are reached by the differential leg only. -/
 theorem translate_sound_partial :
     ∀ r ∈ rows, ∃ fm d c, DalvikSem.form r.opcode = some fm ∧ domOfText r.dom = some d ∧ coreOf r = some c ∧
       ∀ (ρ : DalvikSem.Env) (lit : Int), litOk fm lit → d.ok lit →
@@ -166,11 +170,37 @@ at the top of a condition. -/
 theorem print_parse (e : JExpr.DExpr) (h : JExpr.WF e) : JExpr.parse (JExpr.print e) = some (JExpr.toJava e) :=
   JExpr.print_parse_wf e h
 
+/-- EVERY constant, of any value (not the sample of `literal_contexts_checked`): what the Writer prints for it
+    re-parses to a literal — or, for a negative value, a unary minus on a literal, the only way JLS 3.10.1 offers —
+    that denotes exactly the constant, with the `L` suffix iff it is a long.  Inside any well-formed expression
+    `print_parse` places that subtree where the constant was. -/
+theorem constant_printed_denotes (v : Int) (long : Bool) :
+    JExpr.parse (JExpr.print (.const v long)) = some (JExpr.toJava (.const v long)) ∧
+    JExpr.litValue (JExpr.toJava (.const v long)) = some (v, long) :=
+  JExpr.const_denotes v long
+
 /-- the printed lexemes determine the Java expression: two well-formed IR expressions with the same text stand for
     the same Java tree -/
 theorem print_tokens_injective (e₁ e₂ : JExpr.DExpr) (h₁ : JExpr.WF e₁) (h₂ : JExpr.WF e₂)
     (h : JExpr.print e₁ = JExpr.print e₂) : JExpr.toJava e₁ = JExpr.toJava e₂ :=
   JExpr.print_determines_tree e₁ e₂ h₁ h₂ h
+
+/-- every expression of the arithmetic fragment the soundness theorems above talk about (no comparison below the top),
+    seen as an IR tree (`JExpr.ofExpr`; its lexemes are tied to `printExpr` and to the real Writer on every run), is well
+    formed: `print_parse` applies to all of them, unconditionally -/
+theorem fragment_well_formed (e : Expr) (h : JExpr.Frag e) : JExpr.WF (JExpr.ofExpr e) :=
+  JExpr.wf_ofExpr e h
+
+/-- **text ↦ lexemes ↦ JLS parser ↦ tree ↦ value.**  For every expression `e` of the fragment whose literals are in the
+    range of their type and whose variables are declared (`Γ`) with the type `e` reads them with: the lexemes the Writer
+    prints re-parse to a Java tree `T`, and the JLS semantics evaluated ON THAT TREE (`JExpr.evalJ`: parentheses, literals
+    and negated literals, binary numeric promotion, shifts, comparisons, casts, `Long.compare`) gives exactly
+    `JavaSem.eval ρ e` — the value, exception or compile error that `translate_sound_partial` equates with the Dalvik
+    outcome (`javaOutcome` is a function of `eval (jenv ρ) (exprOf fm lit c)`). -/
+theorem reparsed_value (Γ : String → Option (Ty × Nat)) (ρ : JavaSem.Env) (e : Expr) (hf : JExpr.Frag e)
+    (hl : JExpr.LitsOK e) (ht : JExpr.Typed Γ e) :
+    ∃ T, JExpr.parse (JExpr.print (JExpr.ofExpr e)) = some T ∧ JExpr.evalJ Γ ρ T = eval ρ e :=
+  JExpr.reparsed_value Γ ρ e hf hl ht
 
 /-- the parser is not vacuous (1): a Writer that drops the parentheses of a RIGHT operand prints, for every operator
     and all primaries a b c, `a op (b op c)` as the lexemes of `(a op b) op c` -/
@@ -219,5 +249,14 @@ example : JExpr.WF (.cond .lt
     (.cmp true (.var "4") (.const 5 true))) := by decide
 /-- a bare comparison as an operand is not -/
 example : ¬ JExpr.WF (.bin .add (.cond .lt (.var "0") (.var "1")) (.var "2")) := by decide
+
+/-- `((long) v1) >> (v2 & -3)` with `v1 : int`, `v2 : int` satisfies the hypotheses of `reparsed_value` -/
+example : let e : Expr := .bin .shr (.cast .long (.var .int 1)) (.bin .and (.var .int 2) (.lit (-3) false))
+    JExpr.Frag e ∧ JExpr.LitsOK e ∧
+      JExpr.Typed (fun s => if s = "v" ++ toString 1 then some (.int, 1) else if s = "v" ++ toString 2 then some (.int, 2) else none) e := by
+  refine ⟨by simp [JExpr.Frag, Arith], by simp [JExpr.LitsOK], ?_⟩
+  simp only [JExpr.Typed]
+  refine ⟨by simp, ?_, trivial⟩
+  rw [if_neg (by decide)]; simp
 
 end AgVerif.C21
